@@ -18,7 +18,8 @@ HeapValues == <<
   O(<<>>), O(<< <<"a", JStr("x")>> >>), O(<< <<"a", JInt(1)>> >>),
   O(<< <<"a", JStr("x")>>, <<"b", JInt(2)>> >>), O(<< <<"a", JStr("x")>>, <<"z", JStr("y")>> >>),
   O(<< <<"z", JInt(1)>> >>), O(<< <<"a", JStr("x")>>, <<"class", JInt(3)>> >>), JInt(5),
-  O(<< <<"a", JStr("xy")>>, <<"b", JStr("q")>> >>), O(<< <<"a", JStr("xy")>> >>) >>
+  O(<< <<"a", JStr("xy")>>, <<"b", JStr("q")>> >>), O(<< <<"a", JStr("xy")>> >>),
+  JArr(<<JInt(1)>>), JArr(<<JStr("x"), JStr("y")>>) >>
 
 E0 == Mk("Element", [properties |-> << Prop("a", "a", TRUE,
                                             MkComp("AllOf", << StringE, Mk("Element", [minLength |-> 1]) >>, EmptyKw)),
@@ -46,7 +47,25 @@ SetChoices == {
   <<"minProperties", 2>>, <<"maxProperties", 1>>, <<"additionalPropertiesB", FALSE>>,
   <<"required", <<"b">> >>, <<"patternProperties", << <<"^a", IntegerE>> >> >>,
   <<"const", O(<< <<"a", JStr("x")>> >>)>>, <<"default", O(<< <<"a", JStr("x")>> >>)>>,
-  <<"propertyNames", Mk("String", [maxLength |-> 1])>> }
+  <<"propertyNames", Mk("String", [maxLength |-> 1])>>,
+  <<"items", IntegerE>>, <<"minItems", 2>>, <<"minimum", JInt(7)>> }
+
+(* a parent that sets every class keyword, for the subclass (merge) events *)
+P0 == MkObj("P", [default |-> O(<< <<"a", JStr("x")>> >>), enum |-> << O(<< <<"a", JStr("x")>> >>), JNull >>,
+                  required |-> <<"a">>, description |-> "parent", minProperties |-> 1, maxProperties |-> 3,
+                  patternProperties |-> << <<"^a", StringE>> >>,
+                  additionalProperties |-> IntegerE,
+                  propertyNames |-> Mk("String", [maxLength |-> 5]),
+                  depsL |-> << <<"a", <<"b">> >> >>,
+                  depsS |-> << <<"b", Mk("Element", [minProperties |-> 2])>> >>,
+                  const |-> O(<< <<"a", JStr("x")>> >>),
+                  properties |-> << Prop("a", "a", TRUE, StringE), Prop("class_", "class", FALSE, IntegerE) >>])
+(* class H(P, <every keyword overridden>): a overridden, z added *)
+HKw == [default |-> JNull, enum |-> << JNull >>, required |-> <<"z">>, description |-> "child",
+        minProperties |-> 0, maxProperties |-> 9, patternProperties |-> << <<"^b", IntegerE>> >>,
+        additionalPropertiesB |-> FALSE, propertyNames |-> Mk("String", [minLength |-> 1]),
+        depsL |-> << <<"z", <<"a">> >> >>, const |-> JNull]
+HProps == << Prop("a", "a", FALSE, IntegerE), Prop("z", "z", TRUE, StringE) >>
 PropChoices == { Prop("z", "z", TRUE, StringE), Prop("a", "a", TRUE, IntegerE),
                  Prop("b", "b", TRUE, StringE) }
 
@@ -67,7 +86,9 @@ Step(o, newheap, outcome) ==
 
 NoOutcome == [kind |-> "none", out |-> NP]
 
+InstanceOnly == {"items", "minItems", "minimum"}   \* not class keywords: only meaningful on E
 SetKeyword == \E x \in Targets, c \in SetChoices :
+  (c[1] \in InstanceOnly => x = "E") /\
   Step(Op("set", x, <<c[1], c[2]>>), [heap EXCEPT ![x] = SetKw(@, c[1], c[2])], NoOutcome)
 ClearKeyword == \E x \in Targets : \E kw \in DOMAIN heap[x].kw \ {"properties"} :
   Step(Op("clear", x, <<kw, 0>>), [heap EXCEPT ![x] = DelKw(@, kw)], NoOutcome)
@@ -93,7 +114,9 @@ ParentIsolated == [][(Len(hist') > Len(hist) /\ hist'[Len(hist')].x \in Children
 
 Export == PrintT(ToJson([hist |-> hist, heap |-> heap, last |-> last,
                          init |-> IF Len(hist) = 0
-                                  THEN [values |-> HeapValues, dkw |-> DKw, dprops |-> DProps, fkw |-> FKw]
-                                  ELSE [values |-> <<>>, dkw |-> DKw, dprops |-> <<>>, fkw |-> FKw]]))
+                                  THEN [values |-> HeapValues, dkw |-> DKw, dprops |-> DProps, fkw |-> FKw,
+                                        p0 |-> P0, hkw |-> HKw, hprops |-> HProps]
+                                  ELSE [values |-> <<>>, dkw |-> DKw, dprops |-> <<>>, fkw |-> FKw,
+                                        p0 |-> ElementE, hkw |-> FKw, hprops |-> <<>>]]))
 Inv == Export
 =============================================================================
